@@ -602,7 +602,7 @@ def main():
     rep = Report('C19', tier, 'model_checking')
     cfg = os.environ.get('C19_CFG', 'san')
     depth = int(os.environ.get('C19_DEPTH', 5 if tier == "quick" else 6))
-    dl = deadline(tier, 240, 1500)
+    dl = deadline(tier, 900, 1500)
     ex = Exec(exe(cfg))
     a = ex.run(['reset', 'val.create V0 0', 'val.dump V0', 'val.create V1 1', 'val.dump V1', 'reset'])
     defaults = {'char': a[2], 'numb': a[4]}
